@@ -712,6 +712,23 @@ func execute(c *vkit.Case, cb combo) *retained {
 		}
 	}
 
+	// Complete success is not an error: every index invoked exactly once and every invocation
+	// returned nil => nil error (whatever the caller's context has done meanwhile).
+	if cb.hasCtx() && failed == 0 && err != nil {
+		rep.Eval(n)
+		allOnce := true
+		for i := 0; i < n; i++ {
+			if r.counts[i].Load() != 1 {
+				allOnce = false
+				break
+			}
+		}
+		if allOnce {
+			violate("error-after-complete-success", fmt.Sprintf("every index was invoked exactly once and every call returned nil, but the call returned %q", err.Error()), map[string]any{"error": err.Error()})
+			return keep
+		}
+	}
+
 	// Error contract.
 	if cb.hasCtx() {
 		rep.Eval(1)
@@ -899,6 +916,15 @@ func main() {
 			executeScale(c, scale[c.Index])
 		})
 
+		// The caller's context ends at or around the moment the last call finishes (finish.go).
+		finish := finishCases(r, r.Rand("finish"))
+		r.Cases("finish", len(finish), 1, func(c *vkit.Case) {
+			if r.NViolations() >= 5 {
+				return
+			}
+			executeFinish(c, finish[c.Index])
+		})
+
 		// GOMAXPROCS changed inside the process. "GOMAXPROCS when <= 0" means the value in force when
 		// the call is made. GOMAXPROCS is process-global: this group runs alone, one case at a time,
 		// after everything above has finished, and every case restores the inherited value.
@@ -988,6 +1014,9 @@ func main() {
 			r.Floor("runs that stopped early after a failure", r.Table("runs", "stopped early after a failure"), 20*q)
 			r.Floor("runs with very many trivial calls", r.Table("runs", "very many trivial calls"), int64(len(large)))
 			r.Floor("runs with a cheap ramp-up then a slow plateau", r.Table("runs", "cheap ramp-up then slow plateau"), int64(len(ramp)))
+			r.Floor("runs in which the caller's ctx ended while every index had been invoked and succeeded", r.Table("runs", "caller's ctx ended while every index had been invoked and succeeded"), int64(r.Scale(500, 2000)))
+			r.Floor("runs in which the last call to finish ends the caller's ctx", r.Table("finish runs", "last call to finish ends the caller's ctx"), int64(r.Scale(600, 2400)))
+			r.Floor("runs in which an outside goroutine cancels around the end of the last call", r.Table("finish runs", "outside goroutine cancels around the end of the last call"), int64(r.Scale(2400, 40000)))
 			r.Floor("product-scale runs", r.Table("runs", "product scale (parallelism x n >= 2^32)"), int64(len(scale)))
 			r.Floor("runs after GOMAXPROCS was changed in-process", r.Table("runs", "after GOMAXPROCS was changed in-process"), int64(len(procs)))
 		}
